@@ -23,13 +23,201 @@ structure SameMeaning (a b : Ast) : Prop where
     (∃ p ∈ b.tuples, (litVal p.1 = i ∧ litVal p.2 = j) ∨ (litVal p.1 = j ∧ litVal p.2 = i))
   settings : ∀ x, x ∈ a.valuedSettings ↔ x ∈ b.valuedSettings
 
+
+namespace Respell
+open Tucan RejectKind POut Tucan.Acc
+
+/-- the (atom index, key, value) triple a setting sets -/
+def valKey (x : Str × Str × Str) : Nat × Str × Nat := (litVal x.1, x.2.1, litVal x.2.2)
+
+/-- the dictionary `acc` stores exactly the values the valued settings `Q` state -/
+def VInv (acc : List (Int × Atom)) (Q : List (Nat × Str × Nat)) : Prop :=
+  ∀ (n : Nat) (k : Str), KeyText k → ∀ v : Int,
+    fieldOf k (recOf acc n) = some v ↔ ∃ w : Nat, (w : Int) = v ∧ (n, k, w) ∈ Q
+
+theorem vinv_nil : VInv [] [] := by
+  intro n k _ v
+  simp [recOf, alookup, fieldOf_empty]
+
+theorem attrStep_val {acc : List (Int × Atom)} {P : List (Nat × Str)} {Q : List (Nat × Str × Nat)}
+    {x : Str × Str × Str} {acc' : List (Int × Atom)}
+    (inv : Inv acc P) (vinv : VInv acc Q) (hx : SettingLit x) (h : attrStep acc x = .ok acc') :
+    VInv acc' (Q ++ [valKey x]) := by
+  obtain ⟨hsi, hsv, hmem⟩ := (attrStep_char inv hx).2 acc' h
+  obtain ⟨idx, k, v⟩ := x
+  obtain ⟨hi, hk, hv⟩ := hx
+  simp only at hi hk hv hsi hsv
+  simp only [setKey] at hmem
+  obtain ⟨key, hkey, hset⟩ := setAttr_key hk (litVal v) (recOf acc (litVal idx))
+  have hstep : attrStep acc (idx, k, v) =
+      (setAttr key (litVal v) (recOf acc (litVal idx)) >>= fun cur' =>
+        pure (ainsert ((litVal idx : Int) - 1) cur' acc)) := by
+    unfold attrStep
+    simp only [listenerInt_short hi hsi, listenerInt_short hv hsv, hkey]
+    rfl
+  have hnone : ¬ (fieldOf k (recOf acc (litVal idx))).isSome = true :=
+    fun h => hmem ((inv.field _ _ hk).1 h)
+  rw [hstep, hset, if_neg hnone] at h
+  have hacc : acc' = ainsert ((litVal idx : Int) - 1) (setField k (litVal v) (recOf acc (litVal idx))) acc :=
+    (Except.ok.inj h).symm
+  subst hacc
+  have hnone' : fieldOf k (recOf acc (litVal idx)) = none := by
+    cases hf : fieldOf k (recOf acc (litVal idx)) with
+    | none => rfl
+    | some w => rw [hf] at hnone; exact absurd rfl hnone
+  intro n k' hk' v0
+  unfold recOf
+  rw [alookup_ainsert]
+  by_cases hn : n = litVal idx
+  · subst hn
+    simp only [beq_self_eq_true, if_true, Option.getD_some, fieldOf_setField hk hk']
+    by_cases hkk : k' = k
+    · subst hkk
+      simp only [if_true, Option.some.injEq, List.mem_append, List.mem_singleton, valKey, Prod.mk.injEq,
+        true_and]
+      constructor
+      · intro hv0
+        exact ⟨litVal v, hv0, Or.inr rfl⟩
+      · rintro ⟨w, hw, hq | hq⟩
+        · have := (vinv _ _ hk' (w : Int)).2 ⟨w, rfl, hq⟩
+          rw [hnone'] at this
+          cases this
+        · rw [← hq]; exact hw
+    · simp only [List.mem_append, List.mem_singleton, valKey, Prod.mk.injEq, hkk, false_and,
+        and_false, or_false]
+      exact vinv _ _ hk' v0
+  · have hne : (((litVal idx : Int) - 1) == ((n : Int) - 1)) = false := by
+      simp only [beq_eq_false_iff_ne, ne_eq]; omega
+    simp only [hne, Bool.false_eq_true, if_false, List.mem_append, List.mem_singleton, valKey,
+      Prod.mk.injEq, hn, false_and, or_false]
+    exact vinv _ _ hk' v0
+
+theorem attrFold_val : ∀ (L : List (Str × Str × Str)) (P : List (Nat × Str)) (Q : List (Nat × Str × Nat))
+    (acc : List (Int × Atom)), Inv acc P → VInv acc Q → (∀ x ∈ L, SettingLit x) →
+    ∀ r, L.foldlM attrStep acc = .ok r → VInv r (Q ++ L.map valKey)
+  | [], P, Q, acc, _, vinv, _, r, hr => by
+    have : acc = r := Except.ok.inj hr
+    subst this
+    simpa using vinv
+  | x :: L, P, Q, acc, inv, vinv, hL, r, hr => by
+    obtain ⟨s1, s2⟩ := attrStep_char inv (hL x List.mem_cons_self)
+    have hL' : ∀ y ∈ L, SettingLit y := fun y hy => hL y (List.mem_cons_of_mem _ hy)
+    rw [List.foldlM_cons] at hr
+    obtain ⟨acc', h1, h2⟩ := bind_ok hr
+    obtain ⟨acc'', h1', inv'⟩ := s1 (s2 acc' h1)
+    rw [h1] at h1'
+    have : acc' = acc'' := Except.ok.inj h1'
+    subst this
+    have vinv' := attrStep_val inv vinv (hL x List.mem_cons_self) h1
+    have := attrFold_val L _ _ acc' inv' vinv' hL' r h2
+    rw [List.map_cons, List.append_cons]
+    exact this
+
+theorem valuedSettings_eq (ast : Ast) : ast.valuedSettings = (flatSettings ast.attrs).map valKey := by
+  unfold Ast.valuedSettings flatSettings
+  rw [List.map_flatMap]
+  congr 1
+  funext b
+  rw [List.map_map]
+  rfl
+
+/-- the attribute listener stores exactly the stated values -/
+theorem listenAttrs_val {ast : Ast} (ha : AttrsOk ast.attrs) (r : List (Int × Atom))
+    (hr : listenAttrs ast.attrs = .ok r) : VInv r ast.valuedSettings := by
+  rw [listenAttrs_flat] at hr
+  have := attrFold_val (flatSettings ast.attrs) [] [] [] inv_nil vinv_nil (flat_lit ha) r hr
+  rw [List.nil_append, ← valuedSettings_eq] at this
+  exact this
+
+theorem recOf_succ (st : ListenerState) (i : Nat) : recOf st.nodeAttrs (i + 1) = extraOf st (i : Int) := by
+  unfold recOf extraOf
+  have : (((i + 1 : Nat) : Int) - 1) = (i : Int) := by omega
+  rw [this]
+
+theorem fieldOf_mass (a : Atom) : fieldOf "mass".toList a = a.mass := if_pos rfl
+
+theorem fieldOf_rad (a : Atom) : fieldOf "rad".toList a = a.rad := if_neg mass_ne_rad
+
+theorem field_eq {r r' : List (Int × Atom)} {Q Q' : List (Nat × Str × Nat)} (v : VInv r Q) (v' : VInv r' Q')
+    (hQ : ∀ x, x ∈ Q ↔ x ∈ Q') (n : Nat) (k : Str) (hk : KeyText k) :
+    fieldOf k (recOf r n) = fieldOf k (recOf r' n) := by
+  apply Option.ext
+  intro a
+  rw [v n k hk a, v' n k hk a]
+  constructor
+  · rintro ⟨w, hw, hq⟩; exact ⟨w, hw, (hQ _).1 hq⟩
+  · rintro ⟨w, hw, hq⟩; exact ⟨w, hw, (hQ _).2 hq⟩
+
+/-- the listener state of an accepted string, for the given tokens and tree -/
+theorem state_of (s : Str) (toks : List Tok) (ast : Ast) (hl : lex s = some toks) (hsen : Sentence toks ast)
+    (g : Graph) (hg : graphFromTucan s = .ok g) :
+    ∃ st : ListenerState, listenFormula ast.formula = .ok st.atoms ∧ listenTuples ast.tuples = .ok st.bonds ∧
+      listenAttrs ast.attrs = .ok st.nodeAttrs ∧ toGraph st = .ok g ∧ GoodState st ∧
+      TuplesOk ast.tuples ∧ AttrsOk ast.attrs := by
+  obtain ⟨toks0, ast0, st, hl0, hp0, h1, h2, h3, h4, hgood⟩ := graphFromTucan_state s g hg
+  rw [hl] at hl0
+  cases hl0
+  rw [(parseTucan_iff toks ast).2 hsen] at hp0
+  cases hp0
+  obtain ⟨_, o2, o3⟩ := sentence_ok hsen (lex_lit hl)
+  exact ⟨st, h1, h2, h3, h4, hgood, o2, o3⟩
+
+theorem bonds_mem {tu : List (Str × Str)} (htu : TuplesOk tu) (bs : List (Int × Int))
+    (h : listenTuples tu = .ok bs) (i j : Nat) :
+    (((i : Int), (j : Int)) ∈ bs ∨ ((j : Int), (i : Int)) ∈ bs) ↔
+      ∃ p ∈ tu, (litVal p.1 = i + 1 ∧ litVal p.2 = j + 1) ∨ (litVal p.1 = j + 1 ∧ litVal p.2 = i + 1) := by
+  obtain ⟨t1, t2⟩ := listenTuples_char htu
+  have := t1 (t2 bs h)
+  rw [h] at this
+  have hbs : bs = tu.flatMap tupleBond := Except.ok.inj this
+  subst hbs
+  rw [mem_flatMap_tupleBond, mem_flatMap_tupleBond]
+  constructor
+  · rintro (⟨p, hp, he⟩ | ⟨p, hp, he⟩)
+    · simp only [Prod.mk.injEq] at he
+      exact ⟨p, hp, Or.inl ⟨by omega, by omega⟩⟩
+    · simp only [Prod.mk.injEq] at he
+      exact ⟨p, hp, Or.inr ⟨by omega, by omega⟩⟩
+  · rintro ⟨p, hp, ⟨h1, h2⟩ | ⟨h1, h2⟩⟩
+    · refine Or.inl ⟨p, hp, ?_⟩
+      simp only [Prod.mk.injEq]
+      exact ⟨by omega, by omega⟩
+    · refine Or.inr ⟨p, hp, ?_⟩
+      simp only [Prod.mk.injEq]
+      exact ⟨by omega, by omega⟩
+
+end Respell
+
+open Respell Tucan.Acc in
 /-- the two parsed graphs are the same molecule, atom `i` ↦ atom `i` -/
 theorem respelling_iso (s s' : Str) (toks toks' : List Tok) (ast ast' : Ast)
     (hl : lex s = some toks) (hsen : Sentence toks ast) (hl' : lex s' = some toks') (hsen' : Sentence toks' ast')
     (same : SameMeaning ast ast') (g g' : Graph)
     (hg : graphFromTucan s = .ok g) (hg' : graphFromTucan s' = .ok g') :
     Iso SameIdent id g g' ∧ g.Chem ∧ g.WF ∧ g.Simple ∧ g'.WF ∧ g'.Simple := by
-  sorry
+  obtain ⟨st, h1, h2, h3, h4, hgood, o2, o3⟩ := state_of s toks ast hl hsen g hg
+  obtain ⟨st', h1', h2', h3', h4', hgood', o2', o3'⟩ := state_of s' toks' ast' hl' hsen' g' hg'
+  obtain ⟨gw, gs, gm, _, _⟩ := graphFromTucan_mol s g hg
+  obtain ⟨gw', gs', _, _, _⟩ := graphFromTucan_mol s' g' hg'
+  have hatoms : st.atoms = st'.atoms := by
+    rw [same.formula, h1'] at h1
+    exact (Except.ok.inj h1).symm
+  have vinv := listenAttrs_val o3 _ h3
+  have vinv' := listenAttrs_val o3' _ h3'
+  have iso : Iso SameIdent id g g' := by
+    refine toGraph_respell st st' hgood hgood' id (by rw [hatoms]) (fun i hi => hi)
+      (fun i j _ _ h => h) (fun i _ => by rw [hatoms]; rfl) ?_ ?_ g g' h4 h4'
+    · intro i _
+      have hm := field_eq vinv vinv' same.settings (i + 1) _ (Or.inl rfl)
+      have hr := field_eq vinv vinv' same.settings (i + 1) _ (Or.inr rfl)
+      rw [recOf_succ, recOf_succ, fieldOf_mass, fieldOf_mass] at hm
+      rw [recOf_succ, recOf_succ, fieldOf_rad, fieldOf_rad] at hr
+      exact ⟨hm.symm, hr.symm⟩
+    · intro i j _ _
+      show _ ↔ (((i : Int), (j : Int)) ∈ st'.bonds ∨ ((j : Int), (i : Int)) ∈ st'.bonds)
+      rw [bonds_mem o2 _ h2, bonds_mem o2' _ h2']
+      exact same.bonds (i + 1) (j + 1)
+  exact ⟨iso, fun a ha x hx => (gm a ha x hx).chem, gw, gs, gw', gs'⟩
 
 /-- **Respellings normalize to the same string**, for every oracle meeting the bliss contract. -/
 theorem respelling_same_string (O : CanonOracle) (s s' : Str) (toks toks' : List Tok) (ast ast' : Ast)
@@ -37,6 +225,7 @@ theorem respelling_same_string (O : CanonOracle) (s s' : Str) (toks toks' : List
     (same : SameMeaning ast ast') (g g' : Graph)
     (hg : graphFromTucan s = .ok g) (hg' : graphFromTucan s' = .ok g')
     (t t' : Str) (ht : tucanOf O.order g = .ok t) (ht' : tucanOf O.order g' = .ok t') : t = t' := by
-  sorry
+  obtain ⟨iso, hchem, gw, gs, gw', gs'⟩ := respelling_iso s s' toks toks' ast ast' hl hsen hl' hsen' same g g' hg hg'
+  exact tucan_invariant O iso hchem gw gs gw' gs' ht ht'
 
 end Tucan
